@@ -7,6 +7,8 @@ import (
 	"sort"
 	"strconv"
 	"strings"
+	"sync"
+	"sync/atomic"
 
 	"github.com/MichaelMure/git-bug/zzverif/rt"
 )
@@ -159,5 +161,32 @@ func VH_chan() {
 	rt.Observe("sum", sum)
 	rt.Assert(cnt == n, "all-received")
 	rt.Assert(sum == n*(n-1), "sum")
+	rt.Cover("end")
+}
+
+type stBox struct{ n int }
+
+var stMemo sync.Map
+
+// VH_syncmap: state kept behind sync/atomic pointers and in a sync.Map is found again.
+func VH_syncmap() {
+	var p atomic.Pointer[stBox]
+	rt.Assert(p.Load() == nil, "atomic-pointer-starts-nil")
+	b := &stBox{n: int(rt.NondetByte())}
+	p.Store(b)
+	got := p.Load()
+	rt.Assert(got == b, "atomic-pointer-keeps-what-was-stored")
+	// (atomic.Value puns *Value to *efaceWords: not representable, ends in an engine error)
+	k := &stBox{n: 1}
+	_, had := stMemo.Load(k)
+	rt.Assert(!had, "sync-map-starts-empty")
+	stMemo.Store(k, b)
+	x, ok := stMemo.Load(k)
+	rt.Assert(ok, "sync-map-finds-stored-key")
+	if ok {
+		rt.Assert(x.(*stBox) == b, "sync-map-returns-stored-value")
+	}
+	_, ok2 := stMemo.Load(&stBox{n: 1})
+	rt.Assert(!ok2, "sync-map-other-key-absent")
 	rt.Cover("end")
 }
